@@ -44,14 +44,29 @@ def same_ip(a, b, violations, what, shapes_as_1d=False, single=False):
                 return
 
 
-def build(ids, naming):
+VALUE_KINDS = ["float", "int", "np.float32", "np.float64", "np.int64", "ndarray"]
+
+
+def cast(x, kind):
+    if kind == "float":
+        return float(x)
+    if kind == "int":
+        return int(round(8 * x))
+    if kind == "ndarray":
+        return float(x)
+    return getattr(np, kind[3:])(x if "float" in kind else round(8 * x))
+
+
+def build(ids, naming, kind="float"):
     from leaspy.io.outputs import IndividualParameters
     ip = IndividualParameters()
     for q, sid in enumerate(ids):
         d = {}
         for name, shape in naming:
-            base = 0.125 * (q + 1) + 0.01 * len(name)
-            d[name] = base if shape == () else [base + 0.5 * j for j in range(shape[0])]
+            base = 0.125 * (q + 1) + 0.015625 * len(name)
+            d[name] = cast(base, kind) if shape == () else [cast(base + 0.5 * j, kind) for j in range(shape[0])]
+            if kind == "ndarray":
+                d[name] = np.array(d[name])
         ip.add_individual_parameters(sid, d)
     return ip
 
@@ -60,7 +75,7 @@ def standin_conversions(tier, seed):
     from leaspy.io.outputs import IndividualParameters
     from leaspy.exceptions import LeaspyIndividualParamsInputError
     violations, evals, distinct, samples = [], 0, set(), []
-    id_sets = [["a", "b"], ["007", "12"], ["1.0", "1e3", "x y"], ["subj-1"]]
+    id_sets = [["a", "b"], ["007", "12"], ["1.0", "1e3", "x y"], ["subj-1"], ["NA", "null", "nan"], ["b", "a", "c"]]
     namings = [
         [("xi", ()), ("tau", ())],
         [("xi", (1,)), ("tau", (1,))],
@@ -69,13 +84,14 @@ def standin_conversions(tier, seed):
         [("xi", (1,)), ("sources", (1,))],
         [("tau", (1,)), ("w", (2,))],
         [("tau_mean", (1,)), ("xi", (1,))],
+        [("tau_mean", (2,)), ("xi_std", ())],
+        [("x_1", (1,)), ("xi", (1,))],
     ]
     tmp = tempfile.mkdtemp(prefix="c16_")
     try:
-        for ids, naming in itertools.product(id_sets, namings):
-            label = f"ids={ids} names={naming}"
-            ip = build(ids, naming)
-            distinct.add((tuple(ids), str(naming)))
+        for ids, naming, kind in itertools.product(id_sets, namings, VALUE_KINDS if tier == "thorough" else VALUE_KINDS):
+            ip = build(ids, naming, kind)
+            distinct.add((tuple(ids), str(naming), kind))
             # table round trip
             evals += 1
             try:
@@ -108,10 +124,10 @@ def standin_conversions(tier, seed):
                     with quiet():
                         ip.save(path)
                         back = IndividualParameters.load(path)
-                    same_ip(ip, back, violations, f"dict -> {ext} file -> dict ({[n for n, _ in naming]}, ids {ids})",
+                    same_ip(ip, back, violations, f"dict -> {ext} file -> dict ({[n for n, _ in naming]})",
                             shapes_as_1d=(ext == "csv"))
                 except Exception as e:
-                    violations.append(dict(key=f"save / load {ext} raises {type(e).__name__} for shapes {[s for _, s in naming]}: {str(e)[:80]}"))
+                    violations.append(dict(key=f"save / load {ext} raises {type(e).__name__} for shapes {[s for _, s in naming]}, values {kind}: {str(e)[:80]}"))
             if len(samples) < 2:
                 samples.append(dict(ids=ids, naming=str(naming)))
         # refusals
@@ -141,7 +157,7 @@ def standin_conversions(tier, seed):
     return dict(evaluations=evals, distinct_nontrivial=len(distinct),
                 rule="one evaluation = one conversion round trip of a container (identifiers x naming x shapes); distinct = (ids, naming)",
                 samples=samples, violations=list(uniq.values())[:8],
-                bound=dict(space="4 identifier sets x 7 namings/shapes x 4 conversion paths + 7 invalid additions", exhaustive=True))
+                bound=dict(space="6 identifier sets x 9 namings/shapes x 6 value types x 4 conversion paths + 7 invalid additions", exhaustive=True))
 
 
 STANDINS = [standin_conversions]
